@@ -14,7 +14,7 @@ are false of the pinned source (namespace `Neg`): they are proved
   * as `…_partial` for every variant — in particular the pinned one — under the explicit
     hypothesis that excludes the failing region (`Op.restoreOrderedAt`, `Op.freshOkAt`).
 -/
-import LinVerif.Lemmas.C06Consume
+import LinVerif.Lemmas.C06Conc
 import LinVerif.Model.FanOutPark
 import LinVerif.Generated.C06
 
@@ -490,6 +490,108 @@ example :
     (pstep Variant.fixed (prun Variant.fixed PState.init (pre ++ [.cend 0, .op (.setConsumed 0 10), .cbegin 0,
         .op (.setAppended 6)] ++ List.replicate 5 (.op (.append 1)))) (.cend 0)).2 = .res (.val 7) := by decide
 
+/-! ## GetOrCreateConsumerGroup in two steps, interleaved with Sync / Ack / GC (Model/FanOutConc.lean)
+
+The pinned source builds the new group under `lock4map.Lock` (tie `lock_sections_tie`), Sync takes
+`lock4map.RLock`: between the moment `NewConsumerGroup` has read the queue ack and the moment the
+group is in the map, nothing that takes the map lock can run; everything else (appends, consume /
+ack / set-consumed on the other groups, GC) can. -/
+
+/-- every enabled concurrent history ends in the state of the sequential history in which each
+two-step create takes effect at its registration: all theorems over `run` apply to it. -/
+theorem create_two_step_linearizes (v : Variant) (ops : List COp) (cs : CState)
+    (h : crun v true CState.init ops = some cs) : cs.s = run v State.init (clinAll ops) :=
+  (crun_lin v ops CState.init cs CInv.init h).2
+
+/-- (4c) under the interleaving: a step that moves the queue ack is a Sync that runs while no
+create is in flight, and the new value is at or below the ack of every group in the map — which
+includes every group whose creation has begun earlier. -/
+theorem queue_ack_le_min_group_ack_interleaved (v : Variant) (ops : List COp) (o : COp) (cs1 cs2 : CState)
+    (h1 : crun v true CState.init ops = some cs1) (h2 : cstep v true cs1 o = some cs2)
+    (hnr : NoReset v (clinAll ops ++ clin o)) (hmove : cs2.s.q.ack ≠ cs1.s.q.ack) :
+    o = .op .sync ∧ cs1.creating = none ∧
+      ∀ g grp, lookup cs1.s.live g = some grp → cs2.s.q.ack ≤ grp.ack := by
+  obtain ⟨hi1, e1'⟩ := crun_lin v ops CState.init cs1 CInv.init h1
+  have e1 : cs1.s = run v State.init (clinAll ops) := e1'
+  obtain ⟨_, e2⟩ := cstep_lin v cs1 cs2 o hi1 h2
+  cases o with
+  | crBegin g => exact absurd (by rw [e2]; rfl) hmove
+  | crEnd g =>
+    have hm : (run v State.init (clinAll ops ++ [.create g])).q.ack ≠ (run v State.init (clinAll ops)).q.ack := by
+      rw [run_append, ← e1]; rw [e2] at hmove; exact hmove
+    have := (queue_ack_le_min_group_ack v (clinAll ops) (.create g) hnr hm).1
+    cases this
+  | op o' =>
+    have hm : (run v State.init (clinAll ops ++ [o'])).q.ack ≠ (run v State.init (clinAll ops)).q.ack := by
+      rw [run_append, ← e1]; rw [e2] at hmove; exact hmove
+    obtain ⟨ho, hall⟩ := queue_ack_le_min_group_ack v (clinAll ops) o' hnr hm
+    subst ho
+    refine ⟨rfl, ?_, ?_⟩
+    · simp only [cstep] at h2
+      split at h2
+      · cases h2
+      · rename_i hen
+        cases hc : cs1.creating with
+        | none => rfl
+        | some c => simp [hc, Op.needsMapLock] at hen
+    · intro g grp hl
+      have := hall g grp (by rw [← e1]; exact hl)
+      rw [run_append, ← e1] at this
+      rw [e2]; exact this
+
+/-- (5d) under the interleaving, for a `NewConsumerGroup` that starts new groups at the queue ack
+(the source after the fix): a message a registered group has not acknowledged is readable. -/
+theorem unacked_readable_interleaved (v : Variant) (hv : v.freshAtQueueAck = true) (ops : List COp) (cs : CState)
+    (h : crun v true CState.init ops = some cs) (hnr : NoReset v (clinAll ops))
+    (g : Nat) (grp : Group) (hl : lookup cs.s.live g = some grp)
+    (m : Int) (h1 : grp.ack < m) (h2 : m ≤ cs.s.q.appended) : ∃ len, cs.s.q.get m = .ok len := by
+  rw [create_two_step_linearizes v ops cs h] at hl h2 ⊢
+  exact unacked_readable v hv _ hnr g grp hl m h1 h2
+
+/-! ## consume ‖ ack with the meta page: what reopen restores
+
+In the pinned source `Ack` validates, stores and writes the meta page inside ONE read-locked
+section (tie `lock_sections_tie`), `consume()` inside one write-locked section: the interleavings of
+`consume_vs_ack` are all there are, and after each of them the meta pages hold the in-memory
+positions. -/
+theorem consume_vs_ack_persist (v : Variant) (s : State) (hb : Base s) (ho : Order s) (ha : Above s)
+    (g : Nat) (cs as l : List Op) (hcs : ∀ o ∈ cs, o = .consume g) (has : ∀ o ∈ as, ∃ n, o = .ack g n)
+    (hi : Interleave cs as l) (g' : Nat) (grp' : Group) (hl' : lookup (run v s l).live g' = some grp') :
+    lookup (run v s l).metas g' = some { consumed := grp'.consumed, ack := grp'.ack } ∧
+    lookup (step v (run v s l) .reopen).1.live g' = some { grp' with paused := false } ∧
+    lookup (step v (step v (run v s l) (.stop g')).1 (.create g')).1.live g' = some { grp' with paused := false } := by
+  have hmem := interleave_mem hi
+  have hall : ∀ o ∈ l, o = .consume g ∨ ∃ n, o = .ack g n := by
+    intro o ho'
+    rcases hmem o ho' with h1 | h1
+    · exact Or.inl (hcs o h1)
+    · exact Or.inr (has o h1)
+  have hvalid : ∀ (l' : List Op) (s' : State), (∀ o ∈ l', o = .consume g ∨ ∃ n, o = .ack g n) →
+      Valid v (fun s o => o.okAt s ∧ o.restoreOrderedAt s ∧ o.freshOkAt s) s' l' := by
+    intro l'
+    induction l' with
+    | nil => intro _ _; trivial
+    | cons o os ih =>
+      intro s' hall'
+      refine ⟨?_, ih _ (fun o' ho' => hall' o' (List.mem_cons_of_mem _ ho'))⟩
+      rcases hall' o List.mem_cons_self with e | ⟨n, e⟩ <;> subst e <;> exact ⟨trivial, trivial, trivial⟩
+  have hinv := inv_run (v := v) (I := fun s => Base s ∧ Order s ∧ Above s)
+    (fun s o hi ok => ⟨hi.1.step ok.1, Order.step hi.1 hi.2.1 ok.1 (Or.inr ok.2.1),
+      Above.step hi.1 hi.2.2 ok.1 (Or.inr ok.2.2)⟩) l s ⟨hb, ho, ha⟩ (hvalid l s hall)
+  refine ⟨hinv.1.grp g' grp' hl', reopen_group_of_inv v _ hinv.1 hinv.2.1 hinv.2.2 g' grp' hl', ?_⟩
+  -- stop g' ; create g' : restored from the meta page
+  have hm := hinv.1.grp g' grp' hl'
+  have hord := (hinv.2.1.live hinv.1 g' grp' hl').1
+  have habv := hinv.2.2 g' grp' hl'
+  show lookup (State.create v { (run v s l) with live := erase (run v s l).live g' } g').live g' = _
+  unfold State.create
+  simp only [lookup_erase_self]
+  show lookup (upsert _ g' _) g' = _
+  rw [lookup_upsert_self]
+  show some (newGroup v (run v s l).q.ack (lookup (run v s l).metas g')).toGroup = _
+  rw [hm, newGroup_some_id v _ _ habv hord]
+  rfl
+
 /-! ## ties to the regenerated facts (harness/internal/extract/facts_c06.go) -/
 
 /-- the source's `NewConsumerGroup` is one of the modelled variants -/
@@ -586,6 +688,32 @@ theorem call_order_tie :
       Generated.C06.consumeCalls =
       ["lock4headSeq.Lock", "consumedSeq.Load", "q.Queue().AppendedSeq", "consumedSeq.Store"] ∧
     Generated.C06.setConsumedLock = "Lock" ∧ Generated.C06.setSeqLock = "Lock" := by decide
+
+/-- critical sections (what runs inside the lock a method opens first):
+* `GetOrCreateConsumerGroup` = `lock4map.Lock; defer Unlock; lookup; newConsumerGroupFunc; register` —
+  the group is built and registered inside the write-locked section (the `locked = true` shape of
+  Model/FanOutConc.lean); `Sync` reads the groups' acks and moves the queue ack inside
+  `lock4map.RLock`; `StopConsumerGroup` takes the write lock;
+* `Ack` stores the ack AND writes both meta fields inside its read-locked section (deferred unlock),
+  re-reading the positions for the meta write; `consume()` re-reads, stores and persists inside
+  its write-locked section. -/
+theorem lock_sections_tie :
+    Generated.C06.getOrCreateCalls = ["lock4map.Lock", "defer:lock4map.Unlock", "newConsumerGroupFunc"] ∧
+    Generated.C06.getOrCreateLock = "Lock" ∧
+    "newConsumerGroupFunc" ∈ Generated.C06.getOrCreateLockedCalls ∧
+    Generated.C06.syncLock = "RLock" ∧ Generated.C06.stopGroupLock = "Lock" ∧
+    Generated.C06.syncCalls.take 2 = ["lock4map.RLock", "defer:lock4map.RUnlock"] ∧
+    essential ["fo.AcknowledgedSeq", "queue.SetAcknowledgedSeq"] Generated.C06.syncLockedCalls =
+      ["fo.AcknowledgedSeq", "queue.SetAcknowledgedSeq"] ∧
+    Generated.C06.ackCalls.take 2 = ["lock4headSeq.RLock", "defer:lock4headSeq.RUnlock"] ∧
+    essential ["acknowledgedSeq.Store", "f.ConsumedSeq", "f.AcknowledgedSeq", "metaPage.PutUint64", "lock4headSeq.RUnlock"]
+      Generated.C06.ackLockedCalls =
+      ["f.AcknowledgedSeq", "f.ConsumedSeq", "acknowledgedSeq.Store", "f.ConsumedSeq", "metaPage.PutUint64",
+       "f.AcknowledgedSeq", "metaPage.PutUint64"] ∧
+    essential ["metaPage.PutUint64", "acknowledgedSeq.Store"] Generated.C06.ackCalls =
+      essential ["metaPage.PutUint64", "acknowledgedSeq.Store"] Generated.C06.ackLockedCalls ∧
+    Generated.C06.consumeCalls.take 2 = ["lock4headSeq.Lock", "defer:lock4headSeq.Unlock"] ∧
+    Generated.C06.consumeLockedCalls = Generated.C06.consumeCalls := by decide
 
 /-! ## non-vacuity: the hypotheses are satisfied by non-trivial histories -/
 
@@ -686,6 +814,33 @@ theorem repaired_on_witnesses :
     lookup (run Variant.fixed State.init witnessStop).live 1 = some ⟨10, 10, false⟩ ∧
     lookup (run { liftConsumed := true, freshAtQueueAck := false } State.init (witnessLate ++ [.reopen])).live 1
       = some ⟨10, 10, false⟩ := by decide
+
+/-- What the tie on `GetOrCreateConsumerGroup`'s critical section protects (the shape of seeded
+change c06-4, `locked = false`): group 1's creation reads the queue ack (-1), group 0 acks 10, Sync
+moves the queue ack to 10, then group 1 is registered at (-1,-1): the queue ack is beyond the ack of
+an existing group and sequence 0, which group 1 has not acknowledged, cannot be read. In the locked
+shape the same schedule is not enabled (Sync is blocked). -/
+def raceCreate : List COp :=
+  [.op (.create 0)] ++ List.replicate 12 (.op (.append 1)) ++ List.replicate 11 (.op (.consume 0)) ++
+  [.crBegin 1, .op (.ack 0 10), .op .sync, .op .gc, .crEnd 1]
+
+theorem create_outside_map_lock_fails :
+    crun Variant.fixed true CState.init raceCreate = none ∧
+    ∃ cs, crun Variant.fixed false CState.init raceCreate = some cs ∧
+      cs.s.q.ack = 10 ∧ lookup cs.s.live 1 = some ⟨-1, -1, false⟩ ∧ cs.s.q.get 0 = .outOfRange :=
+  ⟨by decide, _, rfl, by decide, by decide, by decide⟩
+
+/-- What the tie on `Ack`'s critical section protects (the shape of seeded change c06-6): Ack stores
+under the lock, a consume() lands between its unlock and its meta write, the snapshot overwrites the
+consumed position on the meta page; after reopen sequence 1 is handed out a second time. -/
+theorem ack_persist_outside_lock_fails :
+    let s0 := run Variant.fixed State.init [.create 0, .append 1, .append 1, .append 1, .consume 0]
+    let a := s0.ackStore 0 0
+    let s1 := (step Variant.fixed a.1 (.consume 0))
+    let s2 := s1.1.ackPersist 0 (a.2.getD (0, 0))
+    s1.2 = .val 1 ∧ lookup s2.live 0 = some ⟨1, 0, false⟩ ∧
+    lookup (step Variant.fixed s2 .reopen).1.live 0 = some ⟨0, 0, false⟩ ∧
+    (step Variant.fixed (step Variant.fixed s2 .reopen).1 (.consume 0)).2 = .val 1 := by decide
 
 end Neg
 
